@@ -315,7 +315,8 @@ func (r *GatewayRegistry) getCollectionConflicts(ctx context.Context, dbName str
 
 	for _, configGroup := range r.ConfigGroups {
 		for registryDbName, database := range configGroup.Databases {
-			if registryDbName != dbName {
+			// a database marked as deleted (in-flight or interrupted delete) owns no collections
+			if registryDbName != dbName && !database.IsDeleted() {
 				registryScopes := database.Scopes
 				if len(registryScopes) == 0 {
 					registryScopes = defaultOnlyRegistryScopes
@@ -340,7 +341,8 @@ func (r *GatewayRegistry) getPreviousConflicts(ctx context.Context, dbName strin
 	conflictingDbs := make(map[configGroupAndDatabase]struct{}, 0)
 	for cgName, configGroup := range r.ConfigGroups {
 		for registryDbName, database := range configGroup.Databases {
-			if registryDbName != dbName && database.PreviousVersion != nil {
+			// the previous collections of an in-flight delete are not conflicts (see deleteDatabase)
+			if registryDbName != dbName && database.PreviousVersion != nil && !database.IsDeleted() {
 				previousScopes := database.PreviousVersion.Scopes
 				if len(previousScopes) == 0 {
 					previousScopes = defaultOnlyRegistryScopes
